@@ -590,24 +590,45 @@ example : processW (fun i (c : Call Nat Nat) => if i = 1 then none else some (c.
 
 /-! ### `map_neuronlist_df` (`segment_analysis` on a NeuronList)
 
-Full statement (what the property demands):
+Since fix 88dbed7 the surviving frames are zipped with the *surviving* neurons
+(`ok = [n for n, failed in zip(nl, proc.failed) if not failed]`). -/
 
-    theorem mapdf_labels {ν γ} (f : ν → Res γ) (nl : List ν) (h : ∃ x ∈ nl, (f x).isSome) :
-        mapDfW f nl true = some (nl.filterMap fun x => (f x).map fun v => (x, v))
+/-- **Full strength**: with `omit_failures=True`, for every failure pattern, each surviving neuron's frame
+carries that neuron's own id, in list order; failing neurons remove only themselves (if nothing survives
+`pd.concat([])` raises). -/
+theorem mapdf_labels {ν γ} (f : ν → Res γ) (nl : List ν) :
+    mapDfW f nl true =
+      if (nl.filterMap f).isEmpty then none else some (nl.filterMap fun x => (f x).map fun v => (x, v)) :=
+  mapDfW_omit f nl
 
-It is **false** for the code as written (open finding `map_neuronlist_df/omit_failures/ids-misaligned`):
-the frames that survive are zipped with the *unfiltered* neuron list, so after the first failure every
-frame gets the id of an earlier neuron and the last ids are lost.  Proved: the statement when nothing
-fails; and the counterexample. -/
-
-theorem mapdf_labels_partial {ν γ} (g : ν → γ) (nl : List ν) (hne : nl ≠ []) (omitF : Bool) :
+/-- Without failures the same holds whatever `omit_failures` is … -/
+theorem mapdf_labels_no_failure {ν γ} (g : ν → γ) (nl : List ν) (hne : nl ≠ []) (omitF : Bool) :
     mapDfW (fun x => some (g x)) nl omitF = some (nl.map fun x => (x, g x)) :=
   mapDfW_no_failure g nl hne omitF
 
-/-- Neurons 0, 1, 2; neuron 1 fails: neuron 2's frame (value 20) is labelled with id 1, id 2 disappears. -/
+/-- … and without `omit_failures` one failing neuron makes the whole call raise. -/
+theorem mapdf_strict_failure {ν γ} (f : ν → Res γ) (nl : List ν) (h : ∃ x ∈ nl, f x = none) :
+    mapDfW f nl false = none :=
+  mapDfW_strict_failure f nl h
+
+/-- **Tie to the source**: what the translator reads off the *current* `map_neuronlist_df` /
+`NeuronProcessor.__call__` (zip partner of the results = the survivors, computed from `proc.failed`, which the
+processor records before dropping the failed runs) labels correctly for every failure pattern.  Reverting
+fix 88dbed7 turns `Gen.NblastJobs.dfFacts.zipPartner` into `"list"`, `mapDfOf` into `mapDfPreFix`, and this
+theorem stops checking. -/
+theorem mapdf_source_labels {ν γ} (f : ν → Res γ) (nl : List ν) :
+    mapDfOf Navis.Gen.NblastJobs.dfFacts f nl true =
+      if (nl.filterMap f).isEmpty then none else some (nl.filterMap fun x => (f x).map fun v => (x, v)) := by
+  have : mapDfOf Navis.Gen.NblastJobs.dfFacts f nl true = mapDfW f nl true := by
+    unfold mapDfOf
+    rw [if_pos (by decide)]
+  rw [this]; exact mapDfW_omit f nl
+
+/-- HISTORICAL witness (the labelling before fix 88dbed7 was wrong): neurons 0, 1, 2, neuron 1 fails —
+`zip(nl, res)` labels neuron 2's frame (value 20) with id 1 and loses id 2; the repaired code does not. -/
 theorem mapdf_labels_counterexample :
-    mapDfW (fun x => if x = 1 then none else some (10 * x)) [0, 1, 2] true = some [(0, 0), (1, 20)] ∧
-    [0, 1, 2].filterMap (fun x => (if x = 1 then none else some (10 * x)).map fun v => (x, v)) = [(0, 0), (2, 20)] := by
+    mapDfPreFix (fun x => if x = 1 then none else some (10 * x)) [0, 1, 2] true = some [(0, 0), (1, 20)] ∧
+    mapDfW (fun x => if x = 1 then none else some (10 * x)) [0, 1, 2] true = some [(0, 0), (2, 20)] := by
   decide
 
 end Navis.Props.C09
